@@ -50,7 +50,7 @@ Definition C17_full_statement : Prop :=
    /\ spec_field_types (round 4: every property of Keys / Data is the declared field: name, type read off the
    declaration, repeated, primary / tenant / foreign key)
    /\ spec_member_field_types (the same of the nested message of every event, the request / response message
-   of every command method, the upsert message of every summary) *)
+   of every command method, the upsert message of every summary, the objects / oneofs of the entity block) *)
 Theorem C17_full : C17_full_statement.
 Proof. intros e Hq. split; [exact (full_all_clauses e Hq)|exact (reserved_rejected e Hq)]. Qed.
 Print Assumptions C17_full.
@@ -251,7 +251,8 @@ Print Assumptions C17_field_types_as_declared.
 
 (* ... and of the members (EVERY declaration the model compiles): the nested message of every event, the
    request and response message of every command method, the upsert message of every summary (after the
-   upsert metadata) hold the declared fields - name, type, repeated, key flags - in declaration order *)
+   upsert metadata), the objects and oneofs declared in the entity block hold the declared fields - name,
+   type, repeated, key flags - in declaration order *)
 Theorem C17_member_field_types_as_declared : forall e cs, compile e = Ok cs -> spec_member_field_types e cs.
 Proof. exact member_field_types_as_declared. Qed.
 Print Assumptions C17_member_field_types_as_declared.
